@@ -115,6 +115,7 @@ func cmdCheck(args []string) {
 	localAssumes := map[string]string{}
 	unsupported := map[string][]string{}
 	var noTerm []string
+	var skippedClauses []string
 	for _, vc := range vcs {
 		sel := false
 		for _, o := range vc.obls {
@@ -153,6 +154,7 @@ func cmdCheck(args []string) {
 		if prop == "C04" {
 			noTerm = append(noTerm, vc.noTerm...)
 		}
+		skippedClauses = append(skippedClauses, vc.skipped...)
 	}
 	sort.Strings(noTerm)
 	// lemma obligations (class G) tagged with the property
@@ -318,24 +320,25 @@ func cmdCheck(args []string) {
 		"seed":        seed,
 		"level":       "proof",
 		"coverage": map[string]interface{}{
-			"obligations":                          len(obls),
-			"discharged":                           discharged,
-			"checker_cmd":                          "bin/apdvc check " + prop + " --tier " + *tier,
-			"trusted_base":                         tb,
-			"samples":                              samples,
-			"functions_under_contract":             fl,
-			"per_backend":                          perBackend,
-			"solver_time_s":                        solverTime,
-			"vacuity_guards":                       vacuity,
-			"lemma_obligations":                    len(lemmaObls),
-			"not_covered":                          notCovered[prop],
-			"known_findings":                       knownHit,
-			"generator_problems":                   problems,
-			"obligations_by_class":                 byClass,
-			"loops_without_termination_obligation": noTerm,
-			"bounded_standins":                     bounded,
-			"runtime_checking":                     rtc,
-			"exhaustive":                           false,
+			"obligations":              len(obls),
+			"discharged":               discharged,
+			"checker_cmd":              "bin/apdvc check " + prop + " --tier " + *tier,
+			"trusted_base":             tb,
+			"samples":                  samples,
+			"functions_under_contract": fl,
+			"per_backend":              perBackend,
+			"solver_time_s":            solverTime,
+			"vacuity_guards":           vacuity,
+			"lemma_obligations":        len(lemmaObls),
+			"not_covered":              notCovered[prop],
+			"known_findings":           knownHit,
+			"generator_problems":       problems,
+			"obligations_by_class":     byClass,
+			"clauses_naming_locals_not_checked_at_early_returns": skippedClauses,
+			"loops_without_termination_obligation":               noTerm,
+			"bounded_standins":                                   bounded,
+			"runtime_checking":                                   rtc,
+			"exhaustive":                                         false,
 		},
 		"assumptions": assumptions,
 		"wall_s":      time.Since(start).Seconds(),
